@@ -39,6 +39,14 @@ func ParseConfig() (*Config, error) {
 		return nil, fmt.Errorf("failed to load config (%s): %v", envPath, err)
 	}
 
+	// The decoder leaves embedded config pointers nil when the file has no key belonging to them
+	if c.RegConfig == nil {
+		c.RegConfig = &RegConfig{}
+	}
+	if c.ZMQConfig == nil {
+		c.ZMQConfig = &ZMQConfig{}
+	}
+
 	c.ParseBlocklists()
 
 	return &c, nil
